@@ -30,6 +30,10 @@ func main() {
 		}
 		return
 	}
+	if args[0] == "dbg" {
+		dbg(*repo, args[1])
+		return
+	}
 	if args[0] == "dump" && len(args) >= 3 {
 		p, err := core.Load(*repo, []string{args[1]}, false, nil)
 		if err != nil {
